@@ -3,10 +3,13 @@ package checks
 import (
 	"fmt"
 	"net"
+	"os"
+	"path/filepath"
 	"strings"
 	"testing"
 
 	"github.com/vipnode/vipnode/v2/ethnode"
+	"github.com/vipnode/vipnode/v2/jsonrpc2"
 	"github.com/vipnode/vipnode/v2/pool"
 	"github.com/vipnode/vipnode/v2/pool/store"
 	"verifharness/vlib"
@@ -60,6 +63,32 @@ var c19Sources = []struct{ Name, Addr, Host string }{
 	{"ipv6-loopback", "[::1]:51234", "::1"},
 	{"empty", "", ""},
 	{"host-only", "192.0.2.45", "192.0.2.45"},
+	// the library's own stream codec over transports that have no network address
+	{"stream-pipe", "", ""},
+	{"stream-unix", "", ""},
+}
+
+// c19StreamConn connects a host through jsonrpc2.IOCodec over a net.Pipe or a
+// unix socket, as a local agent embedding the pool would.
+func c19StreamConn(w *vlib.World, id *vlib.Identity, kind string) *vlib.Conn {
+	if kind == "stream-unix" {
+		dir, err := os.MkdirTemp("", "verif-c19u-")
+		if err == nil {
+			defer os.RemoveAll(dir)
+			if ln, err := net.Listen("unix", filepath.Join(dir, "s")); err == nil {
+				defer ln.Close()
+				acc := make(chan net.Conn, 1)
+				go func() { c, _ := ln.Accept(); acc <- c }()
+				if c1, err := net.Dial("unix", filepath.Join(dir, "s")); err == nil {
+					if c2 := <-acc; c2 != nil {
+						return w.DialCodecs(id, "", jsonrpc2.IOCodec(c2), jsonrpc2.IOCodec(c1))
+					}
+				}
+			}
+		}
+	}
+	c1, c2 := net.Pipe()
+	return w.DialCodecs(id, "", jsonrpc2.IOCodec(c1), jsonrpc2.IOCodec(c2))
 }
 
 func TestC19(t *testing.T) {
@@ -85,6 +114,10 @@ func TestC19(t *testing.T) {
 					other := vlib.NewIdentity("c19other", n)
 					uri := ov.URI(id.NodeID, other.NodeID)
 					conn := w.Dial(id, src.Addr)
+					if strings.HasPrefix(src.Name, "stream-") {
+						conn.CloseTransportOnly()
+						conn = c19StreamConn(w, id, src.Name)
+					}
 					var arg interface{} = vlib.ConnectReq(true, "geth", uri, "")
 					if method == "vipnode_host" {
 						arg = pool.HostRequest{Kind: "geth", NodeURI: uri}
